@@ -97,12 +97,13 @@ func oracleC09(w *world.World, s *coop.Sched, final bool) *Finding {
 	if final {
 		// a delete of a de-configured IP's object that failed (injected API fault) is logged and not retried by design; such a
 		// leftover is outside this property (the IP is not configured, nothing can hand it out)
+		// (likewise the roll-back of a multi-IP allocation that was refused half-way — the second address turned out to be
+		// reserved — whose delete is the injected fault: the object it could not delete stays; a failure on top of a refusal is
+		// C05's fault model, not this property's)
 		leftover := map[string]bool{}
 		for _, l := range w.APILog {
 			if strings.HasPrefix(l, "FAULT delete fip ") {
-				if ip := strings.Fields(l)[3]; !inConfig(target, ip) {
-					leftover[ip] = true
-				}
+				leftover[strings.Fields(l)[3]] = true
 			}
 		}
 		if f := agreeMemStoreExcept(w, leftover); f != nil {
